@@ -248,7 +248,12 @@ class Prov:
 def dominating_bounds(body, bb, cd=None):
     """Boolean comparison guards that hold at block bb: list of (op, lhs term, rhs term)."""
     out = []
-    for (a, s, c) in guards(body, bb, cd, skip_try=True):
+    gs = list(guards(body, bb, cd, skip_try=True))
+    # plus what holds through the success arm of an expanded helper's Result (the check sits on the helper's only
+    # Ok path; the early `return Err` paths bypass it, so it is no control dependence of the continuation)
+    seen_g = set((a, s) for (a, s, c) in gs)
+    gs += [(a, s, c) for (a, s, c) in dom_guards(body, bb, cd) if (a, s) not in seen_g]
+    for (a, s, c) in gs:
         ct = cond_truth(c)
         if ct is None:
             continue
